@@ -505,3 +505,45 @@ prop(
               ("meet_table_entries_equal", 25)],
     watchdog_s={"quick": 900, "thorough": 5400},
 )
+
+import os as _os  # noqa: E402
+_C19_BUILDS = _os.environ.get("VERIF_C19_BUILDS", "b1 b2").split()  # a mutation pass may restrict the check to "b1"
+
+prop(
+    "C19",
+    level="exploration",
+    rule=("a record is a unique 64-bit id (origin shard, position, salt) in a BA64; all three helpers get identical copies, so "
+          "per-shard orders are compared directly. honest grid: API {reshard_iter, reshard_stream, reshard_try_stream, reshard_aad} x "
+          "shards {1,2,3,5} x selection {all-to-one, round-robin by record id, all-stay, seeded hash of the id, ctx.pick_shard (PRSS; "
+          "helpers i and i+1 share the direction, the third helper draws on its own)} x {semi-honest, malicious sharded context} x "
+          "initial placement {seeded, all on one shard, one shard empty, equal, all empty, alternating; 0..200 records per shard} x "
+          "size hint {exact, larger than the stream (+1, +7, +100)}; every case is executed 2 (quick) / 3 (thorough) times: paused-clock "
+          "single thread with every (helper, shard) spawned as a task, 4-thread tokio runtime, paused-clock with all futures joined in "
+          "one task, with gateway buffer capacity {1,2,4,8,16,32,64} records and seeded per-(helper, shard) delays of the input streams; "
+          "oracle per run: every (helper, shard) returns Ok (quiescence without result = did not complete), multiset over shards == "
+          "input, every record on the shard selected for it (computed by the harness; for PRSS read from the picker log), every picker call carries "
+          "record id = position of the record in its input stream, per-shard order equal on all helpers (PRSS: on the two helpers "
+          "sharing the randomness, whose selections must also agree), reshard_aad data part kept as a multiset and in equal order; "
+          "across the runs of a case: per-shard order equal. shuttle: 2-5 shards x 0..20 records, 8 (quick) / 20 (thorough) random + as "
+          "many PCT(depth 3) schedules per case, same oracle, orders compared against the first schedule. faults (paused clock, on one "
+          "helper; the other two must pass the honest oracle): input stream yields Err in place of item k (k = 0, n, seeded), input "
+          "stream longer than its size hint (hint 0, n-1, seeded), one chunk of one shard-to-shard byte stream truncated so that the "
+          "stream ends inside a record: the affected shard must return Err; every other shard of that helper may wait forever or fail, "
+          "but if it returns Ok it must hold every record selected for it that its origin had consumed. distinct = (API, shards, "
+          "selection, mode, placement, counts, hint class) / (fault, ...); non-trivial = the oracle reached a verdict on the run"),
+    assumptions=[
+        "the shard picker is a pure function of (record id, record) - or PRSS at the given record id - as in every caller in the repository",
+        "a 'transport error' is a shard-to-shard byte stream that ends inside a record (the in-memory transport has no integrity check: "
+        "loss of whole records inside the transport is outside the property)",
+        "non-completion is decided by quiescence under tokio's paused clock (60 virtual seconds) or by shuttle's deadlock detection, never by wall time",
+        "the order demanded is only 'equal across helpers and across schedules'; no particular layout is required",
+    ],
+    builds={"quick": list(_C19_BUILDS), "thorough": list(_C19_BUILDS)},
+    shards={"quick": 8, "thorough": 16},
+    min_evaluations={"quick": 2500 if "b2" in _C19_BUILDS else 1200, "thorough": 60000 if "b2" in _C19_BUILDS else 35000},
+    must_see=[("apis", 4), ("selections", 5), ("shard_counts", 4), ("modes", 2), ("combinations", 160), ("executors", 6),
+              ("cross_run_order_equal", 400), ("stream_shorter_than_hint_ok", 150), ("prss_runs_using_several_targets", 30),
+              ("fault_kinds", 3), ("error_classes", 3), ("failing_shard_returned_err", 250), ("other_shard_waits_forever", 100)]
+             + ([("schedulers", 2), ("sh_schedules_ok_and_compared", 1000)] if "b2" in _C19_BUILDS else []),
+)
+
